@@ -81,6 +81,19 @@ def algebra_case(rnd, D):
                 want_g = sum(t.gradient(x.copy()) for t in twins) + (twins[0].gradient(x.copy()) if len(w1.separate_distributions) > n else 0.0)
                 if not vclose(w1.gradient(x.copy()), want_g):
                     out.append(("additive-sum", f"{cls.__name__}: gradient is not the sum of the parts' gradients at {col(x)}"))
+            # a posterior inside a posterior; the inner one grows afterwards (another likelihood term), or is a subclass with its own misfit:
+            # the outer sum is over what its parts ARE, at the time of the evaluation
+            u1, u2, u3 = [D.Normal(arr([rnd.randint(-8, 8) / 8.0 for _ in range(d)]), arr([rnd.choice([0.5, 1.0, 2.0]) for _ in range(d)])) for _ in range(3)]
+            inner = cls([u1, u2])
+            outer = cls([inner, twins[0]])
+            grow = rnd.random() < 0.7
+            if grow:
+                inner.add_distribution(u3)
+            want_m2 = u1.misfit(x.copy()) + u2.misfit(x.copy()) + (u3.misfit(x.copy()) if grow else 0.0) + twins[0].misfit(x.copy())
+            want_g2 = u1.gradient(x.copy()) + u2.gradient(x.copy()) + (u3.gradient(x.copy()) if grow else 0.0) + twins[0].gradient(x.copy())
+            if not (close(outer.misfit(x.copy()), want_m2) and vclose(outer.gradient(x.copy()), want_g2)):
+                out.append(("additive-nested", f"{cls.__name__}([{cls.__name__}([A, B]), C]){', A/B joined by a third term afterwards' if grow else ''}: misfit {outer.misfit(x.copy())} / "
+                            f"gradient {col(outer.gradient(x.copy()))} at {col(x)}, the sums over the parts are {want_m2} / {col(want_g2)}"))
         elif kind == "composite":
             sizes = [rnd.choice([1, 2]) for _ in range(rnd.randint(2, 3))]
             boxes = [rbox(rnd, n) for n in sizes]
